@@ -1,3 +1,70 @@
 import Driver.Common
--- stub driver (not yet implemented)
-def main : IO Unit := Driver.run () (fun s _ => (s, "bad-op"))
+import SSV.Model.ClientGroups
+open SSV SSV.ClientGroups
+
+/-
+Line protocol of ssv_c19 (one answer line per input line):
+  rrnew                      -> ok                 fresh round-robin selector
+  rrset <ctr>                -> ok                 (model only) put the counter somewhere, e.g. near 2^63
+  rr <n>                     -> <index>            one Select on a group of n clients
+  new <avail|lat|minmax> <n> <timeoutNs> -> <sel>  fresh probe group
+  round <o_0> ... <o_{n-1}>  -> <sel>              one whole round; o = f (failed) | <latency ns>
+  job <i> <o>                -> <sel>              the job of client i finishes (selection as published now)
+  finish                     -> <sel>              wg.Wait() returned: count++, scan, publish
+  sel                        -> <sel>
+-/
+
+structure DState where
+  ctr : Nat
+  pol : Policy
+  timeout : Nat
+  st : State
+
+def parseOutcome (s : String) : Option Outcome :=
+  if s == "f" then some none else (s.toNat?).map some
+
+def parseOutcomes : List String → Option (List Outcome)
+  | [] => some []
+  | s :: rest => do
+    let o ← parseOutcome s
+    let r ← parseOutcomes rest
+    pure (o :: r)
+
+def parsePolicy (s : String) : Option Policy :=
+  if s == "avail" then some .avail else if s == "lat" then some .lat else if s == "minmax" then some .minmax else none
+
+def stepC19 (d : DState) (line : String) : DState × String :=
+  match fields line with
+  | ["rrnew"] => ({ d with ctr := SSV.Gen.C19.rrInit }, "ok")
+  | ["rrset", c] => match c.toNat? with
+      | some k => ({ d with ctr := k % rrWord }, "ok")
+      | none => (d, "bad-op")
+  | ["rr", n] => match n.toNat? with
+      | some k => if k = 0 then (d, "panic") else
+          let (c', i) := rrSelect d.ctr k
+          ({ d with ctr := c' }, toString i)
+      | none => (d, "bad-op")
+  | ["new", p, n, t] => match parsePolicy p, n.toNat?, t.toNat? with
+      | some pol, some k, some to =>
+          let st := init pol k
+          ({ d with pol := pol, timeout := to, st := st }, toString st.sel)
+      | _, _, _ => (d, "bad-op")
+  | "round" :: os => match parseOutcomes os with
+      | some l => if l.length ≠ d.st.rings.length then (d, "bad-op") else
+          let st := round d.pol d.timeout d.st l
+          ({ d with st := st }, toString st.sel)
+      | none => (d, "bad-op")
+  | ["job", i, o] => match i.toNat?, parseOutcome o with
+      | some k, some oc =>
+          let st := jobDone d.pol d.timeout d.st k oc
+          ({ d with st := st }, toString st.sel)
+      | _, _ => (d, "bad-op")
+  | ["finish"] =>
+      let st := finish d.pol d.timeout d.st
+      ({ d with st := st }, toString st.sel)
+  | ["sel"] => (d, toString d.st.sel)
+  | ["state"] => (d, s!"{d.st.count} {d.st.sel} {d.st.rings}")
+  | _ => (d, "bad-op")
+
+def main : IO Unit :=
+  Driver.run { ctr := SSV.Gen.C19.rrInit, pol := .avail, timeout := 0, st := init .avail 1 } stepC19
